@@ -116,10 +116,10 @@ CHECKS = {
   technique="Lean 4 proof per component class + harvested-call replay + forked-USE exploration"),
  "C02": dict(
   category="other",
-  text="Partial by nature: a functional model cannot exhibit CPython thread switching, hash randomisation or object aliasing. PROVED in Lean: schedule_independent (for every set of sessions and EVERY interleaving of their atomic steps around the lazily created shared repository, incl. racing constructions, each finished session's result equals its result when run alone, under the frame hypothesis that no step writes a cell reachable from the shared repository), every_session_can_finish, shared_data_unchanged, route_cache_transparent/exact (the router's memo returns the same store and events as the router without it, incl. re-entrant dispatchers), interpret_frame/interpret_pure over a heap model of Spec.interpret with object identity. DECIDED by the differential the property describes on the real code: every (job, environment, plan) alone in a fresh interpreter vs the same batch in one process in several orders, interleaved command by command, on thread pools, and under several PYTHONHASHSEED values, plus a deep snapshot of all module/class-level shared state around every build and run; differences are shrunk to the smallest batch and order.",
+  text="Partial by nature: a functional model cannot exhibit CPython thread switching, hash randomisation or object aliasing. PROVED in Lean: schedule_independent (for every set of sessions and EVERY interleaving of their atomic steps around the lazily created shared repository, incl. racing constructions, each finished session's result equals its result when run alone, under the frame hypothesis that no step writes a cell reachable from the shared repository), every_session_can_finish, shared_data_unchanged, route_cache_transparent/exact (the router's memo returns the same store and events as the router without it, incl. re-entrant dispatchers), interpret_frame/interpret_pure over a hand-written heap model of Spec.interpret with object identity; and, on programs REGENERATED from the source on every run (tools/py2lean/gen_effects.py -> Props/C02_Patches.lean): patches_never_write_preexisting_objects / interpretation_leaves_the_repository_unchanged — Spec.interpret running ANY chain of the patch classes of simaple/spec/patch.py and simaple/data/jobs/patch.py (recursive DFS traversal as a procedure, hyper-skill and skill-improvement modifiers by class-hierarchy analysis) and DirectorySpecRepository.get/get_all write no object that existed before the call, on every heap and at every point of the call (the frame hypothesis hFrame for the build path); the same for every reducer and view call (Props/C08_Effects.lean). DECIDED by the differential the property describes on the real code: every (job, environment, plan) alone in a fresh interpreter vs the same batch in one process in several orders, interleaved command by command, on thread pools, and under several PYTHONHASHSEED values, plus a deep snapshot of all module/class-level shared state around every build and run; differences are shrunk to the smallest batch and order.",
   design_ref="DESIGN.md §4 C02",
-  note="Protocol theorems assume hFrame (observed by the snapshots) and state-independent `includes`; thread interleavings and hash seeds are sampled, not exhausted; Lark's internal state is covered only by the digests.",
-  technique="Lean 4 proof of the sharing protocol + fresh-process differential (observation)"),
+  note="Protocol theorems assume hFrame (proved for Spec.interpret + patch chain and for the reducer/view layer on regenerated effect programs; observed by the snapshots for the rest: engine construction, dispatchers, stores, Lark) and state-independent `includes`; thread interleavings and hash seeds are sampled, not exhausted; Lark's internal state is covered only by the digests.",
+  technique="Lean 4 proof of the sharing protocol and of the frame of the build path (effect programs regenerated from the source) + fresh-process differential (observation)"),
  "C09": dict(
   category="proof",
   text="Lean 4 theorems at two levels. Entities (Model/Entity.lean, every entity class incl. the mob's DOT tracker and job-specific timers, time as Int on the 2^-10 ms grid): elapse b (elapse a e) is equal or equivalent (up to fields that are dead once a timer expired, with congruence of every method and view) to elapse (a+b) e, tick counts add, for all a,b >= 0, plus multi-way splits — cooldown, lasting, lastingStack, consumable, periodic, keydown, dot, programmedPeriodic, dynamicIntervalPeriodic, currentField; orderSword only partially, with the negation witness (known finding F10). Components (part files C09_Common/Mage/Mech/Wind): X_chunk_independent for the component classes of all eight jobs (same damage ticks as a multiset, equivalent states, equal views), with preserved invariants. Every entity method is compared with the real pydantic entity; and for ALL components of all jobs the property is evaluated directly on the component's own dispatcher on two restored copies of harvested checkpoints with boundary and random splits.",
